@@ -155,6 +155,8 @@ def oracle(case, line):
             if isinstance(mu, bytes) and not G.is_map(info):
                 if ih not in G.ref_magnet_hash(mu):
                     bad.append(("magnet-hash", "accepted magnet hash is not one the URI denotes"))
+            elif isinstance(mu, bytes) and ih in G.ref_magnet_hash(mu):
+                pass        # a stored magnet download: the hash is the one its magnet URI gives
             else:
                 # a bencoded torrent that sets meta_download ITSELF: the loader takes the info hash
                 # from its 'pieces' string, so the hash is chosen by the file's author and is not
